@@ -541,3 +541,7 @@ mod tests {
         // assert!(vec.contains(&[9; 32]));
     }
 }
+
+#[cfg(all(test, saito_verif))]
+#[path = "/verif/replay/in_crate/blockchain_sync_state.rs"]
+mod verif_replay;
